@@ -8,6 +8,7 @@
 -/
 import BqlVerif.Model.Funcs
 import BqlVerif.Proofs.Cal.All
+import BqlVerif.Proofs.ShortenLemmas
 set_option autoImplicit false
 namespace Bql.C18
 open Bql.Cal
@@ -406,5 +407,40 @@ theorem C18_cast_examples :
     semFunc "date" [.str "2020-02-29"] = .ok (.date ⟨2020, 2, 29⟩) ∧ semFunc "date" [.str "2021-02-29"] = .ok .null ∧
     semFunc "date" [.int 2020, .int 2, .int 30] = .ok .null :=
   ⟨rfl, rfl, rfl, rfl, rfl, rfl, rfl⟩
+
+/-! ### maxwidth(x, n) = `textwrap.shorten(x, width=n)` (texts without hyphens) -/
+
+/-- a width the placeholder `[...]` does not fit in is an error (ValueError), whatever the text -/
+theorem C18_maxwidth_narrow (text : List Char) (n : Int) (h : n < 5) : shorten text n = none := by
+  simp [shorten, h]
+
+/-- **the result never exceeds the width**, for every text -/
+theorem C18_maxwidth_bound (text : List Char) (n : Int) (h : 5 ≤ n) :
+    ∃ r, shorten text n = some r ∧ (r.length : Int) ≤ n := by
+  have hn : ¬ n < 5 := by omega
+  refine ⟨shortenLine n.toNat (shortenChunks (splitWords text)), by simp [shorten, hn], ?_⟩
+  have := shortenLine_le n.toNat (by omega) (shortenChunks (splitWords text))
+  omega
+
+/-- **a text that fits is returned with its white space normalised and nothing else changed**: the words of `x.split()`
+    joined by single blanks -/
+theorem C18_maxwidth_fits (text : List Char) (n : Int) (h : 5 ≤ n)
+    (hfit : ((shortenChunks (splitWords text)).flatten.length : Int) ≤ n) :
+    shorten text n = some (shortenChunks (splitWords text)).flatten := by
+  have hn : ¬ n < 5 := by omega
+  simp only [shorten, hn, if_false]
+  rw [shortenLine_fits n.toNat (splitWords text) (splitWords_good text) (by rw [← totalLen_flatten]; omega)]
+
+/-- the words are non-empty and free of white space (what `str.split()` returns) -/
+theorem C18_split_words (text : List Char) : ∀ wd ∈ splitWords text, wd ≠ [] ∧ ∀ c ∈ wd, isWs c = false :=
+  splitWords_good text
+
+theorem C18_maxwidth_examples :
+    shorten "lunch with the team".toList 12 = some "lunch [...]".toList ∧
+    shorten "  lunch \t with  ".toList 12 = some "lunch with".toList ∧
+    shorten "supercalifragilistic".toList 8 = some "[...]".toList ∧
+    shorten "ab supercalifragilistic".toList 10 = some "ab [...]".toList ∧
+    shorten "abc".toList 4 = none ∧ shorten "".toList 5 = some [] := by
+  decide +kernel
 
 end Bql.C18
